@@ -180,7 +180,7 @@ def build_case(rng, cid):
 
 
 def gen_cases(rng, tier):
-    n = {"quick": 1600, "thorough": 30000, "search": 8000}.get(tier, 1600)
+    n = {"quick": 1600, "thorough": 16000, "search": 8000}.get(tier, 1600)
     out = []
     for i in range(n):
         if i % 8 == 7:
